@@ -3,7 +3,7 @@
    machine of a pure-function library: an input text is chosen, then exactly one
    public function is applied to it; the laws of the property are invariants over
    <<input, function, output>>. *)
-EXTENDS UriOps
+EXTENDS UriLong         \* (UriOps + what long inputs need)
 
 
 CONSTANTS Alphabet,     \* code points inputs are built from
@@ -81,6 +81,52 @@ CheckEscapedFixpoint ==
         /\ FullyEscaped(out, AllowedOf(fn))                             \* the result is always fully escaped
         /\ EncodeCE(out, AllowedOf(fn)) = out                           \* hence idempotent
         /\ Decode(out, FALSE) = (IF FullyEscaped(s, AllowedOf(fn)) THEN Decode(s, FALSE) ELSE s)
+
+(* ---- long inputs: the laws that let the reading of a long text be put together from short pieces ---- *)
+(* decode, at every split that does not cut an escape: the text is the UTF-8 reading of the concatenated
+   octets; the texts concatenate if the left octets are complete, and otherwise exactly when the right
+   piece does not go on with the sequence the left one ends in - if it does, the character (or the one
+   ill-formed subpart) straddling the split comes out ONCE, so the whole is strictly shorter than the two
+   readings put side by side (each side would contribute replacement characters of its own) *)
+DecodeChunkLaw ==
+    fn = "decode" =>
+        \A i \in 0..Len(s) : SafeSplit(s, i) =>
+            LET L  == SubSeq(s, 1, i)
+                R  == SubSeq(s, i + 1, Len(s))
+                bl == DecodeBytes(L, plus)
+                br == DecodeBytes(R, plus)
+                side == Decode(L, plus) \o Decode(R, plus)
+            IN  /\ out = U8Read(bl \o br)
+                /\ (U8Complete(bl) <=> U8CompleteDecl(bl))
+                /\ U8Complete(bl) => out = side
+                /\ (~U8Complete(bl) /\ br # <<>>) =>
+                      IF Continues(bl, br[1]) THEN Len(out) < Len(side) /\ out # side
+                      ELSE out = side
+                /\ (ChunkOK(L, plus) /\ i < Len(s)) => DecodeLong(<<L, R>>, <<1, 2>>, plus) = out
+
+(* "already fully escaped" is a conjunction over pieces that do not cut an escape; hence the check-escaped
+   encoders are decided piece-wise as well *)
+CheckEscapedConcat ==
+    fn \in {"encode_check_escaped", "encode_value_check_escaped"} =>
+        \A i \in 0..Len(s) : SafeSplit(s, i) =>
+            LET L == SubSeq(s, 1, i)
+                R == SubSeq(s, i + 1, Len(s))
+                A == AllowedOf(fn)
+                both == FullyEscaped(L, A) /\ FullyEscaped(R, A)
+            IN  /\ (FullyEscaped(s, A) <=> both)
+                /\ out = (IF both THEN s ELSE EncodeLong(<<L, R>>, <<1, 2>>, A))
+
+(* the encoding of every piece is a chunk (whole escapes, whole characters), so by DecodeChunkLaw and
+   EncodeConcat decoding a long encoded text gives the pieces back one by one *)
+EncodedPiecesAreChunks ==
+    fn \in {"encode", "encode_value"} =>
+        \A i \in 0..Len(s) :
+            LET L == SubSeq(s, 1, i)
+                R == SubSeq(s, i + 1, Len(s))
+                A == AllowedOf(fn)
+            IN  /\ ChunkOK(Encode(L, A), FALSE) /\ ChunkOK(Encode(L, A), fn = "encode_value")
+                /\ Decode(Encode(L, A), FALSE) = L /\ Decode(Encode(R, A), FALSE) = R
+                /\ DecodeLong(<<Encode(L, A), Encode(R, A)>>, <<1, 2>>, FALSE) = s
 
 (* composing host and port and splitting again gives them back *)
 HostSplitLaw ==
